@@ -38,7 +38,7 @@ func checkC15(c *Check) {
 				return
 			}
 			nacc++
-			c.Ob("R1", "field "+f+" accessed in "+fnName(fn), fa.Pos(), root == run || root == ns || root == nb, "the bus goroutine's private state is accessed from another goroutine's code path")
+			c.Ob("R1", "field "+f+" accessed in "+fnName(fn), fa.Pos(), inCodeOf(run, root) || root == ns || root == nb, "the bus goroutine's private state is accessed from another goroutine's code path")
 		})
 	}
 	if nacc < 10 {
@@ -49,7 +49,7 @@ func checkC15(c *Check) {
 		for _, call := range callsIn(fn, true) {
 			if call.Common().StaticCallee() == ns {
 				ncall++
-				c.Ob("R1", "subscriber constructor called from "+fnName(fn), call.Pos(), fn == run, "a subscriber is created (and the buffer copied) outside the bus goroutine")
+				c.Ob("R1", "subscriber constructor called from "+fnName(fn), call.Pos(), inCodeOf(run, fn), "a subscriber is created (and the buffer copied) outside the bus goroutine")
 			}
 		}
 	}
@@ -57,7 +57,7 @@ func checkC15(c *Check) {
 
 	// ---- R2 FIFO discipline
 	var sel *ssa.Select
-	eachInstr(run, func(i ssa.Instruction) {
+	eachInstrDeep(run, func(i ssa.Instruction) {
 		if s, ok := i.(*ssa.Select); ok && sel == nil {
 			sel = s
 		}
@@ -157,7 +157,7 @@ func checkC15(c *Check) {
 	// case blocks
 	caseBlock := func(idx int) *ssa.BasicBlock {
 		var out *ssa.BasicBlock
-		eachInstr(run, func(i ssa.Instruction) {
+		eachInstrDeep(run, func(i ssa.Instruction) {
 			if ifi, ok := i.(*ssa.If); ok {
 				if b, ok := ifi.Cond.(*ssa.BinOp); ok && b.Op.String() == "==" {
 					if ex, ok := b.X.(*ssa.Extract); ok && ex.Tuple == ssa.Value(sel) && ex.Index == 0 {
@@ -196,12 +196,12 @@ func checkC15(c *Check) {
 				if v.Low != nil {
 					lo, okLo = constInt(v.Low)
 				}
-				if nrm(Sym(v.X)) == "p:b.evbuf" && okLo && lo == 1 && v.High == nil && fn == run {
+				if nrm(Sym(v.X)) == "p:b.evbuf" && okLo && lo == 1 && v.High == nil && inCodeOf(run, fn) {
 					shrink = append(shrink, st)
 					return
 				}
 			case *ssa.Call:
-				if calleeFull(v) == "builtin.append" && nrm(Sym(v.Call.Args[0])) == "p:b.evbuf" && fn == run {
+				if calleeFull(v) == "builtin.append" && nrm(Sym(v.Call.Args[0])) == "p:b.evbuf" && inCodeOf(run, fn) {
 					grow = append(grow, st)
 					return
 				}
@@ -212,7 +212,7 @@ func checkC15(c *Check) {
 	sb := caseBlock(sendIdx)
 	okShrink := len(shrink) == 1 && sb != nil
 	if okShrink {
-		okShrink = sb == shrink[0].Block() || sb.Dominates(shrink[0].Block())
+		okShrink = domLift(run, sb, shrink[0])
 		// every path from the case to the loop head passes the shrink
 		if okShrink && sb != shrink[0].Block() {
 			okShrink = mustPassFrom(run, sb.Instrs[0], loopHead.Instrs[0], func(i ssa.Instruction) bool { return i == ssa.Instruction(shrink[0]) })
@@ -223,7 +223,7 @@ func checkC15(c *Check) {
 	okGrow := len(grow) == 1 && pb != nil
 	if okGrow {
 		g := grow[0]
-		okGrow = pb.Dominates(g.Block())
+		okGrow = domLift(run, pb, g)
 		call := g.Val.(*ssa.Call)
 		ev := Sym(call.Call.Args[1])
 		okGrow = okGrow && strings.Contains(ev, "Select#") && strings.HasPrefix(ev, "[")
@@ -240,7 +240,7 @@ func checkC15(c *Check) {
 	{
 		var fwd *ssa.Call
 		for _, call := range callsIn(run, false) {
-			if calleeMethod(call) == "Publish" && pb != nil && pb.Dominates(call.Block()) {
+			if calleeMethod(call) == "Publish" && pb != nil && domLift(run, pb, call) {
 				fwd = call.(*ssa.Call)
 			}
 		}
@@ -334,8 +334,8 @@ func checkC15(c *Check) {
 	{
 		sb2 := caseBlock(subIdx)
 		var sends []ssa.Instruction
-		eachInstr(run, func(i ssa.Instruction) {
-			if s, ok := i.(*ssa.Send); ok && sb2 != nil && sb2.Dominates(s.Block()) && strings.Contains(Sym(s.Chan), "Select#") {
+		eachInstrDeep(run, func(i ssa.Instruction) {
+			if s, ok := i.(*ssa.Send); ok && sb2 != nil && domLift(run, sb2, s) && strings.Contains(Sym(s.Chan), "Select#") {
 				sends = append(sends, s)
 			}
 		})
@@ -344,7 +344,7 @@ func checkC15(c *Check) {
 			ok = mustPassFrom(run, sb2.Instrs[0], loopHead.Instrs[0], func(i ssa.Instruction) bool { return i == sends[0] })
 		}
 		reg := false
-		eachInstr(run, func(i ssa.Instruction) {
+		eachInstrDeep(run, func(i ssa.Instruction) {
 			if mu, isMU := i.(*ssa.MapUpdate); isMU && nrm(Sym(mu.Map)) == "p:b.subscriptions" && strings.Contains(Sym(mu.Key), "newSubscriber(") && len(sends) == 1 && instrDominates(mu, sends[0]) {
 				reg = true
 			}
@@ -354,7 +354,7 @@ func checkC15(c *Check) {
 	// shutdown order
 	{
 		var async, wait, notify ssa.Instruction
-		eachInstr(run, func(i ssa.Instruction) {
+		eachInstrDeep(run, func(i ssa.Instruction) {
 			switch x := i.(type) {
 			case *ssa.Call:
 				if calleeMethod(x) == "ShutdownAsync" {
